@@ -303,7 +303,7 @@ func openEngine(rt *rapid.T, c *vk.Case) (*sql.Engine, func()) {
 
 func TestSQLRowsThroughEngine(t *testing.T) {
 	ctx := context.Background()
-	vk.Check(t, 1200, 12000, func(rt *rapid.T, c *vk.Case) {
+	vk.Check(t, 1200, 8000, func(rt *rapid.T, c *vk.Case) {
 		tm := &tableModel{}
 		ncols := rapid.IntRange(2, 6).Draw(rt, "ncols")
 		for i := 0; i < ncols; i++ {
@@ -657,7 +657,7 @@ func readDocs(ctx context.Context, e *document.Engine, q *protomodel.Query) (map
 func TestDocumentRoundTrip(t *testing.T) {
 	ctx := context.Background()
 	types := []protomodel.FieldType{protomodel.FieldType_STRING, protomodel.FieldType_INTEGER, protomodel.FieldType_DOUBLE, protomodel.FieldType_BOOLEAN, protomodel.FieldType_UUID}
-	vk.Check(t, 800, 8000, func(rt *rapid.T, c *vk.Case) {
+	vk.Check(t, 800, 4800, func(rt *rapid.T, c *vk.Case) {
 		nf := rapid.IntRange(1, 4).Draw(rt, "nfields")
 		var fields []docField
 		var pf []*protomodel.Field
